@@ -4,6 +4,7 @@ from __future__ import annotations
 import contextlib
 import io
 import json
+import random
 import os
 import re
 import shutil
@@ -160,6 +161,13 @@ class _Tracer:
         self.installed = True
 
 
+class _NoTick:
+    """Stand-in for the tracer inside worker processes (picklable, no crash injection there)."""
+
+    def tick(self, ev, torn=None):
+        pass
+
+
 def _make_callable(fd, tracer, logpath, fail_line):
     """As mapsym.make_callable, but every call ticks the tracer and is logged to a file; raises at `fail_line`."""
     import inspect
@@ -291,13 +299,24 @@ def child_run(spec, outpath):
             tracer.managers = made
             if spec.get("inplace"):
                 _inplace_patch()
-            p = _build(spec["req"], tracer, spec["logpath"], spec.get("fail_line"))
+            pool = bool(spec.get("pool"))
+            # with a process pool the user functions run in worker processes: they only log their calls
+            p = _build(spec["req"], _NoTick() if pool else tracer, spec["logpath"], spec.get("fail_line"))
             tracer.install()
             try:
-                r = p.map(mapsym.map_inputs(spec["req"]), run_folder=spec["folder"],
-                          internal_shapes=mapsym.internal_arg(spec["req"]),
-                          storage=spec["req"].get("storage", "file_array"), parallel=False,
-                          cleanup=spec["cleanup"])
+                if pool:
+                    from concurrent.futures import ProcessPoolExecutor
+
+                    with ProcessPoolExecutor(2) as ex:
+                        r = p.map(mapsym.map_inputs(spec["req"]), run_folder=spec["folder"],
+                                  internal_shapes=mapsym.internal_arg(spec["req"]),
+                                  storage=spec["req"].get("storage", "file_array"), executor=ex,
+                                  cleanup=spec["cleanup"])
+                else:
+                    r = p.map(mapsym.map_inputs(spec["req"]), run_folder=spec["folder"],
+                              internal_shapes=mapsym.internal_arg(spec["req"]),
+                              storage=spec["req"].get("storage", "file_array"), parallel=False,
+                              cleanup=spec["cleanup"])
                 res["outcome"] = ["ok", [[x[0], x[1]] for x in mapsym.results_obs(spec["req"], r)]]
             except Exception as e:  # noqa: BLE001
                 res["outcome"] = ["err", Err(e).name, f"{type(e).__name__}: {e}"[:200]]
@@ -414,9 +433,10 @@ class _Work:
     def __exit__(self, *a):
         shutil.rmtree(self.dir, ignore_errors=True)
 
-    def spec(self, c, cleanup, crash_at=None, fail_line=None):
+    def spec(self, c, cleanup, crash_at=None, fail_line=None, pool=False):
         return {"req": c["req"], "folder": self.folder, "cleanup": cleanup, "crash_at": crash_at,
-                "half": c.get("half", True), "fail_line": fail_line, "logpath": self.log, "inplace": bool(c.get("old"))}
+                "half": c.get("half", True), "fail_line": fail_line, "logpath": self.log, "inplace": bool(c.get("old")),
+                "pool": pool}
 
     def take_log(self):
         lines = read_log(self.log)
@@ -429,7 +449,8 @@ def run_events(c):
     with _Work() as w:
         _, r1 = fork_run(w.spec(c, True), w.dir)
         _, r2 = fork_run(w.spec(c, False), w.dir)
-        return [[] if r1 is None else r1["events"], _outcome(r1), [] if r2 is None else r2["events"], _outcome(r2)]
+        # last component: the model evaluates the decidable hypotheses of the general resume theorem on this request
+        return [[] if r1 is None else r1["events"], _outcome(r1), [] if r2 is None else r2["events"], _outcome(r2), True]
 
 
 def run_crash(c):
@@ -441,8 +462,24 @@ def run_crash(c):
             before += w.take_log()
         lst = folder_listing(w.folder) if os.path.isdir(w.folder) else []
         runner = subprocess_run if c.get("fresh") else fork_run   # the final resume in a fresh interpreter
-        _, r = runner(w.spec(c, False), w.dir)
-        return [lst, _outcome(r), sorted(before), sorted(w.take_log())]
+        _, r = runner(w.spec(c, False, pool=bool(c.get("pool"))), w.dir)
+        out = _outcome(r)
+        return [lst, out, sorted(before), sorted(w.take_log()), reload_obs(c["req"], w.folder) if out[0] == "ok" else None]
+
+
+def reload_obs(req, folder):
+    """What load_outputs reads back from the run folder, per output (in a later process this is all that is left)."""
+    from pipefunc.map import load_outputs
+
+    out = []
+    with c06mod._quiet(), c06mod.managed_managers():
+        for f in req["funcs"]:
+            for o in f["outs"]:
+                try:
+                    out.append([o, mapsym.arr_obs(load_outputs(o, run_folder=folder))])
+                except Exception as e:  # noqa: BLE001
+                    out.append([o, Err(e)])
+    return out
 
 
 def run_impl(c):
@@ -498,9 +535,12 @@ def crash_cases(rng, req, old, every, max_pairs, with_fail=True, only_fail=False
         ks = []
     elif not every:
         ks = sorted(rng.sample(ks, min(len(ks), every_n(len(ks)))))
+    prng = random.Random(len(ev1) * 1000003 + len(calls))  # own stream: the main one decides the pipelines
     for k in ks:
         out.append({"kind": "crash", "req": req, "old": old, "fail": None, "k1": k, "k2": None,
-                    "half": rng.random() < 0.7, "tag": _tag(ev1, k), "fresh": rng.random() < 0.04})
+                    "half": rng.random() < 0.7, "tag": _tag(ev1, k), "fresh": rng.random() < 0.04,
+                    # the resume with a process pool (worker processes dump into the storages)
+                    "pool": (not old) and prng.random() < (0.25 if req.get("storage") == "shared_memory_dict" else 0.04)})
     # a second crash during the resume
     for _ in range(max_pairs):
         k1 = rng.randrange(len(ev1) + 1)
@@ -514,7 +554,9 @@ def crash_cases(rng, req, old, every, max_pairs, with_fail=True, only_fail=False
             mine = [ln for ln in calls if ln.split("(")[0] == fn]
             for n in sorted(rng.sample(range(len(mine)), min(len(mine), 3))):
                 out.append({"kind": "crash", "req": req, "old": old, "fail": [fn, n], "fail_line": mine[n], "k1": None,
-                            "k2": None, "half": True, "tag": "raise"})
+                            "k2": None, "half": True, "tag": "raise",
+                            # the memory-based storages were persisted by the failing run: the resume loads them
+                            "pool": (not old) and prng.random() < (0.6 if req.get("storage") == "shared_memory_dict" else 0.1)})
                 if rng.random() < 0.3:
                     out.append({"kind": "crash", "req": req, "old": old, "fail": [fn, n], "fail_line": mine[n],
                                 "k1": None, "k2": rng.randrange(len(ev2) + 6), "half": True, "tag": "raise+crash"})
@@ -551,7 +593,11 @@ def generate(rng, tier, mult):
     # user-function raise points only (run_map persists the memory-based storages in its `finally`)
     for q in range((6 if tier == "quick" else 80) * mult):
         st = ["dict", "shared_memory_dict", "file_array", "dict"][q % 4]
-        out += crash_cases(rng, gen_small_req(rng, storage=st, max_funcs=3), False, every=False, max_pairs=0, only_fail=True)
+        cs = crash_cases(rng, gen_small_req(rng, storage=st, max_funcs=3), False, every=False, max_pairs=0, only_fail=True)
+        if st == "shared_memory_dict":   # resume x shared_memory_dict x process pool x reload from the folder, always
+            for c in cs:
+                c["pool"] = c["k2"] is None
+        out += cs
     # shared_memory_dict: all crash points of a few pipelines
     for q in range((1 if tier == "quick" else 8) * mult):
         out += crash_cases(rng, gen_small_req(rng, storage="shared_memory_dict"), False, every=True,
@@ -572,7 +618,7 @@ def nontrivial_key(c):
 
 def distribution(c):
     return {"kind": c["kind"], "storage": c["req"].get("storage"), "old": bool(c.get("old")), "tag": c.get("tag"),
-            "resume_in_fresh_interpreter": bool(c.get("fresh"))}
+            "resume_in_fresh_interpreter": bool(c.get("fresh")), "resume_with_process_pool": bool(c.get("pool"))}
 
 
 def finding_id(c, impl_obs, kind):
